@@ -108,12 +108,12 @@ static void monitor_cb(hx_txrec *r, htp_tx_t *tx, int kind, const uint8_t *data,
                 /* "order_prior": the late data had already been received when the later phase was announced (bytes of an
                  * unfinished block handed out afterwards); "order": it arrived after that point (bytes that follow the message) */
                 int64_t now = tx->connp ? (side ? tx->connp->out_stream_offset : tx->connp->in_stream_offset) : 0;
-                int prior = has_data && len > 0 && now - (int64_t) len < r->rank_pos[side];
+                int prior = has_data && len > 0 && r->rank_pos[side] != 0 && now - (int64_t) len < r->rank_pos[side] - 1;      /* rank_pos holds offset + 1, 0 = never raised */
                 hx_verdict_add("C05", prior ? "order_prior" : "order", "tx %d side %d: callback %c (rank %d) after rank %d; kinds so far %.*s",
                                ord, side, kind, rk, r->rank[side], (int) (r->kinds.n > 60 ? 60 : r->kinds.n), (const char *) r->kinds.p);
             }
         }
-        if (rk > r->rank[side] && tx->connp) r->rank_pos[side] = side ? tx->connp->out_stream_offset : tx->connp->in_stream_offset;
+        if (rk > r->rank[side] && tx->connp) r->rank_pos[side] = 1 + (side ? tx->connp->out_stream_offset : tx->connp->in_stream_offset);
         r->rank[side] = rk;
     }
     switch (kind) {
